@@ -297,6 +297,13 @@ func (e *SEnv) tr(x *SX) *SVal {
 		return e.unary(x)
 	case "bin":
 		return e.binary(x)
+	case "assert":
+		v := e.tr(x.Args[0])
+		if _, ok := v.T.Underlying().(*types.Interface); !ok {
+			e.fail("type assertion on non-interface %s", v.T)
+		}
+		t := e.resolveType(x.Tok)
+		return &SVal{V: e.fr.wrap(g.unbox(t, fmt.Sprintf("(i_val %s)", v.V.T)), t), T: t}
 	case "ite":
 		c := e.boolTerm(x.Args[0])
 		a, b := e.tr(x.Args[1]), e.tr(x.Args[2])
@@ -821,6 +828,16 @@ func (e *SEnv) convertTo(v *SVal, t types.Type) *SVal {
 	if v.Nil {
 		return e.coerceTo(v, t)
 	}
+	if _, toIface := t.Underlying().(*types.Interface); toIface {
+		if _, fromIface := v.T.Underlying().(*types.Interface); fromIface {
+			return &SVal{V: v.V, T: t}
+		}
+		vt := v.V.T
+		if vt == "" && v.V.A != nil {
+			vt = e.g.ptrTerm(v.V.A)
+		}
+		return &SVal{V: &Val{T: fmt.Sprintf("(mk_iface %s %s)", e.g.typeTag(v.T), e.g.box(v.T, vt))}, T: t}
+	}
 	fw, fs, fok := intInfo(v.T)
 	tw, _, tok := intInfo(t)
 	if fok && tok {
@@ -944,6 +961,15 @@ func (e *SEnv) builtinSpec(name string, args []*SX, x *SX) *SVal {
 			return &SVal{V: &Val{T: fmt.Sprintf("(slen %s)", v.V.T)}, T: intT}
 		case *types.Map:
 			_, _, c := g.mapArrNames(t)
+			closed := true
+			for name := range e.bound {
+				if bv, ok := e.vars[name]; ok && bv.V != nil && strings.Contains(v.V.T, bv.V.T) {
+					closed = false
+				}
+			}
+			if closed {
+				e.fr.mapLenFacts(t, v.V.T, e.heap)
+			}
 			return &SVal{V: &Val{T: fmt.Sprintf("(ite (= %s 0) %s (select %s %s))", v.V.T, g.ilit(0), g.heapArr(e.heap, c, g.heapSort[c]), v.V.T)}, T: intT}
 		case *types.Array:
 			return &SVal{Const: big.NewInt(t.Len())}
@@ -976,11 +1002,8 @@ func (e *SEnv) builtinSpec(name string, args []*SX, x *SX) *SVal {
 		return boolVal(fmt.Sprintf("(select %s %s)", g.heapArr(e.heap, sn, g.heapSort[sn]), k.V.T))
 	case "typeis": // typeis(iface, T)
 		v := e.tr(args[0])
-		t := e.tr(args[1])
-		if t.Type == nil {
-			e.fail("typeis needs a type")
-		}
-		return boolVal(fmt.Sprintf("(= (i_tag %s) %s)", v.V.T, g.typeTag(t.Type)))
+		tt := e.resolveType(strings.ReplaceAll(args[1].String(), " ", ""))
+		return boolVal(fmt.Sprintf("(= (i_tag %s) %s)", v.V.T, g.typeTag(tt)))
 	case "allocated": // allocated(p): p was allocated before function entry
 		v := e.tr(args[0])
 		return boolVal(fmt.Sprintf("(<= %s %s)", e.refTerm(v), e.fr.allocOf(e.old)))
